@@ -1014,6 +1014,12 @@ func (g *Gen) checkStableDecls() []*Obligation {
 			}
 			continue
 		}
+		if (d.Kind == "readers" || d.Kind == "noreads") && len(d.Args) >= 1 {
+			if o := g.checkReaders(d); o != nil {
+				out = append(out, o)
+			}
+			continue
+		}
 		if d.Kind == "chaninv" && len(d.Args) >= 1 {
 			if o := g.checkChanInvUses(d); o != nil {
 				out = append(out, o)
@@ -1120,6 +1126,89 @@ func (g *Gen) checkStableDecls() []*Obligation {
 		out = append(out, o)
 	}
 	return out
+}
+
+// checkReaders: `decl readers T.f by F1, F2` - the field is read (loaded) only by the listed functions of the declaring
+// package (everybody else has to go through them, e.g. through an accessor that applies a renaming);
+// `decl noreads pkg.T.f` - this package does not read that field of another package's type at all. SSA scan of the
+// declaring package; stores are not reads.
+func (g *Gen) checkReaders(d *Decl) *Obligation {
+	sp := g.ssaPkgs[d.PkgPath]
+	if sp == nil {
+		return nil
+	}
+	field := d.Args[0]
+	prefix := "H:" + sp.Pkg.Name() + "." + field
+	if d.Kind == "noreads" {
+		prefix = "H:" + field
+	}
+	readers := map[string]bool{}
+	for _, w := range d.Args[1:] {
+		w = strings.Trim(w, ",")
+		if w != "by" && w != "" {
+			readers[w] = true
+		}
+	}
+	var offenders []string
+	var visit func(fn *ssa.Function)
+	visit = func(fn *ssa.Function) {
+		key := fnKey(fn)
+		for _, b := range fn.Blocks {
+			for _, ins := range b.Instrs {
+				fa, ok := ins.(*ssa.FieldAddr)
+				if !ok {
+					continue
+				}
+				kind, p, _, ok := staticPrefix(fa)
+				if !ok || kind+p != prefix || fa.Referrers() == nil {
+					continue
+				}
+				for _, ref := range *fa.Referrers() {
+					switch r := ref.(type) {
+					case *ssa.Store:
+						if r.Addr == ssa.Value(fa) {
+							continue // a store to the field is not a read
+						}
+					case *ssa.DebugRef:
+						continue
+					}
+					if !readers[key] {
+						offenders = append(offenders, key+" ("+g.fset.Position(fa.Pos()).String()+")")
+					}
+				}
+			}
+		}
+		for _, a := range fn.AnonFuncs {
+			visit(a)
+		}
+	}
+	for _, m := range sp.Members {
+		switch x := m.(type) {
+		case *ssa.Function:
+			visit(x)
+		case *ssa.Type:
+			for _, T := range []types.Type{x.Type(), types.NewPointer(x.Type())} {
+				ms := g.prog.MethodSets.MethodSet(T)
+				for i := 0; i < ms.Len(); i++ {
+					if fn := g.prog.MethodValue(ms.At(i)); fn != nil && fn.Synthetic == "" && fn.Pkg == sp {
+						visit(fn)
+					}
+				}
+			}
+		}
+	}
+	o := &Obligation{Name: g.shortPkg(d.PkgPath) + "." + field + "#readers", Kind: "stable", Fn: field,
+		Desc: "field " + field + " is read only by: " + strings.Join(d.Args[1:], " "), NAsserts: -1}
+	if d.Kind == "noreads" {
+		o.Desc = "this package does not read the field " + field + " (it goes through the accessor of the declaring package)"
+	}
+	if len(offenders) == 0 {
+		o.Res = SolverResult{Result: "unsat", Solver: "ssa-scan"}
+	} else {
+		sort.Strings(offenders)
+		o.Res = SolverResult{Result: "unknown", Output: "also read by: " + strings.Join(dedupe(offenders), "; ")}
+	}
+	return o
 }
 
 // checkChanInvUses: the channel of a `decl chaninv T.f` is a pure completion signal. Every use of the channel value
